@@ -372,7 +372,7 @@ cmd_lattice(const char *tag, int with_scores)
     if (with_scores) {
         /* best path and posteriors, as the N-best / confidence code computes them */
         float32 ascale = (float32)(1.0 / config_float(d->config, "ascale"));
-        latlink_t *last = lattice_bestpath(dag, 1.0f), *l;
+        latlink_t *last = lattice_bestpath(dag, ascale), *l;
         int32 post;
         fprintf(vt_out, ",\"hasbest\":%s,\"best\":", last ? "true" : "false");
         if (last == NULL)
@@ -389,7 +389,17 @@ cmd_lattice(const char *tag, int with_scores)
             }
             fprintf(vt_out, "]}");
             post = lattice_posterior(dag, ascale);
-            fprintf(vt_out, ",\"post\":{\"best\":%d,\"norm\":%d,\"links\":[", (int)post, (int)dag->norm);
+            {
+                /* backward total: log-sum over the links leaving the start node of beta + scaled link score */
+                latlink_iter_t *li;
+                int32 bwd = logmath_get_zero(dag->lmath);
+                for (li = ps_latnode_exits(dag->start); li; li = ps_latlink_iter_next(li)) {
+                    latlink_t *lk = ps_latlink_iter_link(li);
+                    bwd = logmath_add(dag->lmath, bwd, lk->beta + (int32)((lk->ascr << 10) * ascale));
+                }
+                fprintf(vt_out, ",\"post\":{\"best\":%d,\"norm\":%d,\"bwd\":%d,\"links\":[", (int)post, (int)dag->norm,
+                        (int)bwd);
+            }
             first = 1;
             for (i = 0; i < n; ++i) {
                 latlink_iter_t *li;
